@@ -178,8 +178,35 @@ def unparse_corr(ctx, progs):
         "unparse_symbolic_lines_compared_on_name_and_modes", 0) + nsym
 
 
+def family_array(rng):
+    """an array whose elements are the complete family base_i_j of its own shape, written in ANOTHER arrangement
+    (a hand-written transpose, two entries exchanged): the names look like the expansion of a whole-array
+    parameter, the arrangement is not"""
+    base = rng.choice(["U", "V", "u", "M2"])
+    r, c = rng.choice([(2, 2), (2, 3), (3, 2), (1, 3), (3, 3)])
+    names = [["%s_%d_%d" % (base, i, j) for j in range(c)] for i in range(r)]
+    flat = [n for row in names for n in row]
+    how = rng.randrange(3)
+    if how == 0 and r == c:
+        flat = [names[j][i] for i in range(r) for j in range(c)]            # transpose
+    elif how == 1:
+        i, j = rng.sample(range(1, len(flat)), 2) if len(flat) > 2 else (1, 1)
+        flat[i], flat[j] = flat[j], flat[i]
+    else:
+        rest = flat[1:]
+        rng.shuffle(rest)
+        flat = flat[:1] + rest
+    rows = [flat[k * c:(k + 1) * c] for k in range(r)]
+    shape = "[%d, %d]" % (r, c) if rng.random() < 0.5 else ""
+    return ("name fam\nversion 1.0\n\nfloat array A%s =\n" % shape +
+            "".join("    " + ", ".join("{%s}" % n for n in row) + "\n" for row in rows) +
+            "%s(A) | [0, 1]\n" % rng.choice(["Interferometer", "G"]))
+
+
 def gen_case(rng, i):
     r = i % 5
+    if i % 23 == 7:
+        return family_array(rng), "array-of-a-complete-parameter-family-rearranged"
     if r == 4:
         # programs of type tdm: variable block, p-arrays by name, strings next to variables of the same name
         from props import c15
